@@ -48,6 +48,15 @@ def sources(tier, seed, ctx):
     for j in range(nrand):
         net = gen.random_netlist(rng, ni=rng.randint(1, 5), ng=rng.randint(1, 14))
         srcs.append({'k': 'trav', 'net': [net[0], net[1]], 'outs': gen.pick_outputs(rng, net[0], len(net[1])), 'variant': rng.choice(['plain', 'shuffle']), 'vs': rng.randrange(10**6), 'ts': rng.randrange(10**6)})
+    # circuits with a past: reached by a random history of public mutators (replace_subcircuit, connect, rename, remove,
+    # blocks, into_bench, ...), then traversed - what a mutator leaves in the users index is what the traversals walk
+    for j in range(250 if tier == 'quick' else 4000):
+        srcs.append({'k': 'trav', 'past': {'seed': rng.randrange(10**9), 'n': rng.randint(4, 12)}, 'vs': j, 'ts': rng.randrange(10**6)})
+    # dense cones: every gate reads every earlier node, so the work list of a traversal holds thousands of entries
+    # (operand order: nearest gate last / first / alternating - it decides how deep a depth-first walk dives before it unwinds)
+    for ng in ((60, 120) if tier == 'quick' else (60, 120, 200)):
+        for order in ('near-last', 'near-first', 'alternating'):
+            srcs.append({'k': 'trav', 'dense': ng, 'order': order, 'vs': ng, 'ts': ng + len(order)})
     ncyc = 600 if tier == 'quick' else 8000
     for j in range(ncyc):
         srcs.append({'k': 'cycle', 'seed': rng.randrange(10**9)})
@@ -123,7 +132,20 @@ def record(src):
             case['raised'] = False
             case['other_exc'] = other
         return case
-    c = build(src)
+    if src.get('past'):
+        from .. import hist, histgen
+        w = {'replace_subcircuit': 6, 'connect': 5, 'rename_gate': 3, 'remove_gate': 2, 'replace_inputs': 2, 'into_bench': 1.5, 'add_gate': 8}
+        c = hist.evolve(histgen.Chooser(src['past']['seed'], w), src['past']['n'])
+    elif src.get('dense'):
+        from cirbo.core.circuit import gate as G
+        c = Circuit.bare_circuit(8, prefix='x')
+        for k in range(src['dense']):
+            prev = list(c.gates)
+            rev = {'near-last': False, 'near-first': True, 'alternating': bool(k % 2)}[src.get('order', 'alternating')]
+            c.emplace_gate(f'd{k}', [G.AND, G.OR, G.XOR][k % 3], tuple(prev[::-1] if rev else prev))
+        c.set_outputs([f'd{src["dense"] - 1}'])
+    else:
+        c = build(src)
     r = random.Random(src['ts'])
     labels = list(c.gates)
     proj = project(c)
@@ -158,6 +180,19 @@ def record(src):
         ev, exc = _trav(c, mode, inv, start_arg, hooks, topo)
         out.append({'kind': 'trav', 'c': proj, 'mode': mode, 'inverse': inv, 'start': start, 'topo': topo,
                     'hooks': sorted(hooks), 'ev': [e for e in ev if e['e'] != 'discover'], 'exc': exc, 'src': src})
+    if src.get('dense') or src.get('past'):
+        # the cycle check on these (acyclic) circuits as well
+        raised, other = False, ''
+        try:
+            check_circuit_has_no_cycles(c)
+        except CircuitValidationError:
+            raised = True
+        except Exception as e:
+            other = type(e).__name__
+        case = {'kind': 'cycle', 'c': project(c, users=False), 'raised': raised, 'src': src}
+        if other:
+            case['other_exc'] = other
+        out.append(case)
     return out
 
 
